@@ -25,6 +25,8 @@ pub struct GenOpts {
 /// block width) needs such shapes to manifest
 pub const BIG_SIZES: [usize; 18] = [15, 16, 17, 31, 32, 33, 34, 40, 63, 64, 65, 70, 96, 100, 127, 128, 129, 150];
 pub const BIG_SIZES_THOROUGH: [usize; 6] = [255, 256, 257, 300, 511, 513];
+/// sample counts beyond 1024/2048/4096 rows (several blocks of any plausible row blocking)
+pub const HUGE_SIZES: [usize; 6] = [1025, 2049, 2500, 3073, 4099, 5000];
 pub fn big_size(rng: &mut Rng, thorough: bool) -> usize {
     if thorough && rng.chance(0.25) {
         *rng.pick(&BIG_SIZES_THOROUGH)
